@@ -275,6 +275,19 @@ func (x *Exec) anchors(kind, text string, at ast.Node, st *State) {
 	}
 	want := kind + " " + text
 	full := kind + " " + normSpace(x.e.srcText(at))
+	// `release before:<call text> [l] e`: e must hold in the state in which the lock was last
+	// released before this call (the call is made without the lock). Unlike `release sN`, the clause
+	// is bound to what the released section is FOR, not to the ordinal of the release point.
+	if kind == "call" && st.held == 0 && st.lastRelease != nil {
+		for _, c := range fr.contract.Clauses {
+			if c.Kind != "release" || c.Cut != "before:"+text {
+				continue
+			}
+			g := x.cevalClauseAt(c, st.lastRelease, fr, at.Pos())
+			x.oblige(st, x.oblName(fr, c.Label), "release", at.Pos(), c.Src, g)
+			x.anchorHits[fr.fi.Key+"|release "+c.Cut+"|"+c.Label]++
+		}
+	}
 	for _, c := range fr.contract.Clauses {
 		if c.Kind != "at-assert" && c.Kind != "at-assume" {
 			continue
@@ -479,6 +492,19 @@ func (x *Exec) unboundClauses() []string {
 			case "invariant":
 				if x.anchorHits[k+"|loop "+c.LoopKey+"|"+c.Label] == 0 {
 					out = append(out, fmt.Sprintf("%s: loop %s invariant [%s]", k, c.LoopKey, c.Label))
+				}
+			case "release":
+				if strings.HasPrefix(c.Cut, "before:") && x.anchorHits[k+"|release "+c.Cut+"|"+c.Label] == 0 {
+					name := x.top.Key + "." + c.Label
+					if k != x.top.Key {
+						name = x.top.Key + "." + k + "#" + c.Label
+					}
+					pos := ""
+					if x.top.Decl != nil {
+						pos = x.e.pos(x.top.Decl.Pos())
+					}
+					x.vc.obls = append(x.vc.obls, &Obligation{Name: name, Func: x.top.Key, Kind: "anchor-missing", Pos: pos,
+						Clause: "no call of " + strings.TrimPrefix(c.Cut, "before:") + " is made after a release of the lock in " + k + " any more: " + c.Src, Goal: "false", vc: x.vc})
 				}
 			case "at-assert":
 				if x.anchorHits[k+"|"+c.Anchor+"|"+c.Label] == 0 {
